@@ -11,7 +11,10 @@ package logical
 //@ func calQn
 //@   property C16
 //@   option intmode=math
-//@   requires vrfValueRatio != nil && stakeRatio != nil && vrfValueRatio != stakeRatio && rat1 != nil && rat1 != stakeRatio && val(rat1) == real(1)
+//@   requires [nonnil] vrfValueRatio != nil && stakeRatio != nil && rat1 != nil
+//@   requires [alias1] vrfValueRatio != stakeRatio
+//@   requires [alias2] rat1 != stakeRatio
+//@   requires [one]    val(rat1) == real(1)
 //@   requires [cfg] model.Param.MaxQN >= 1 && model.Param.MaxQN <= 100
 //@   requires [dom] val(vrfValueRatio) >= real(0) && val(vrfValueRatio) <= real(1) && val(stakeRatio) * real(100000000000000000) >= real(1)
 //@   ensures [clamp] val(stakeRatio) == ite(old(val(stakeRatio)) > real(1), real(1), old(val(stakeRatio))) && val(vrfValueRatio) == old(val(vrfValueRatio))
@@ -31,7 +34,7 @@ package logical
 //@   option intmode=math
 //@   requires totalStake >= 1 && totalStake <= 9000000000000000 && difficulty >= 1 && difficulty <= totalStake
 //@   requires [cfg] model.Param.PotentialProposalIndex >= 0 && model.Param.PotentialProposalIndex <= 100 && model.Param.PotentialProposal >= 1 && model.Param.PotentialProposal <= model.Param.PotentialProposalMax && model.Param.PotentialProposalMax <= 1000
-//@   ensures [pos]   result != nil && val(result) > real(0)
+//@   ensures [pos]   result != nil && val(result) > real(0) && fresh(result)
 //@   ensures [value] val(result) * real(totalStake) >= real(difficulty) * real(model.Param.PotentialProposal) && val(result) * real(totalStake) <= real(difficulty) * real(model.Param.PotentialProposalMax)
 //@   modifies nothing
 
@@ -86,3 +89,39 @@ package logical
 //@   # a block share is counted only together with the sender's beacon share (unless the beacon value is already recovered)
 //@   ensures [pair]   forall k string :: has(r.gSignGenerator.witnessSignMap, k) && !old(has(r.gSignGenerator.witnessSignMap, k)) ==> has(r.rSignGenerator.witnessSignMap, k) || old(sigValid(r.rSignGenerator.groupSign))
 //@   ensures [keep]   forall k string :: old(has(r.gSignGenerator.witnessSignMap, k)) ==> has(r.gSignGenerator.witnessSignMap, k) && r.gSignGenerator.witnessSignMap[k] == old(r.gSignGenerator.witnessSignMap[k])
+
+// The lottery value of a proof is the first 32 bytes of the 80-byte proof: it is only taken after the proof has
+// been padded back to 80 bytes (header transport drops leading zero bytes).
+//@ func calcVrfValueRatio
+//@   property C16
+//@   option intmode=math
+//@   requires [padded] len(prove) >= 80
+//@   requires max256 != nil && val(max256) > real(0)
+//@   ensures [unit!assumed] result != nil && val(result) >= real(0) && val(result) <= real(1)
+//@   ensures [fresh] result != nil && fresh(result)
+//@   modifies nothing
+
+//@ func newBizLog
+//@   option trusted
+//@   ensures result != nil
+//@   modifies nothing
+
+//@ func bizLog.log
+//@   option trusted
+//@   modifies nothing
+
+// Reward schedule constant of the chain configuration (blocks per reward period).
+//@ func ext_getRewardBlocks
+//@   option trusted extern=com.tuntun.rangers/node/src/common.GetRewardBlocks
+//@   ensures result < 4611686018427387904
+//@   modifies nothing
+
+// Qualification of a proof as carried by a header (any length up to 80 bytes).
+//@ func validateProve
+//@   property C16
+//@   option intmode=math
+//@   requires stdLogger != nil && max256 != nil && val(max256) > real(0) && rat1 != nil && val(rat1) == real(1)
+//@   requires [stake] totalStake <= 9000000000000000 && (workingMiners == 0 || workingMiners <= totalStake)
+//@   requires [cfg]   model.Param.MaxQN >= 1 && model.Param.MaxQN <= 100 && model.Param.PotentialProposalIndex >= 0 && model.Param.PotentialProposalIndex <= 100 && model.Param.PotentialProposal >= 1 && model.Param.PotentialProposal <= model.Param.PotentialProposalMax && model.Param.PotentialProposalMax <= 1000
+//@   requires [fork]  common.LocalChainConfig.Proposal025Block < 4611686018427387904
+//@   ensures [zero] totalStake == 0 ==> !ok && qn == 0
